@@ -77,6 +77,18 @@ fn dispatch_run(id: &str, o: &Opts) -> Option<i32> {
     None
 }
 
+fn dispatch_emit(id: &str, o: &Opts, index: u64) -> Option<i32> {
+    macro_rules! try_emit {
+        ($t:ty) => {
+            if <$t as Prop>::ID == id {
+                return Some(runner::emit::<$t>(o, index));
+            }
+        };
+    }
+    for_props!(try_emit);
+    None
+}
+
 fn dispatch_replay(path: &str, rf: &ReplayFile) -> Option<i32> {
     macro_rules! try_replay {
         ($t:ty) => {
@@ -131,6 +143,69 @@ fn main() {
     warm_up();
     let args: Vec<String> = std::env::args().collect();
     let cmd = args.get(1).map(|s| s.as_str()).unwrap_or("");
+    if cmd == "sentinels" {
+        // One-off search (minutes on 16 cores) for connections whose dispatch hash takes a sentinel-looking value:
+        // low 32 bits all zero or all one. hash_flow(frame, 2^32) is the hash's low half. The hits are kept in
+        // /verif/sim/vsim/data/sentinel_flows.json and fed to the affinity check: code that uses such a value to
+        // mean "no flow" meets a real connection there once in 2^32, never in a random sample.
+        use std::sync::atomic::{AtomicBool, AtomicU64, Ordering};
+        use std::sync::{Arc, Mutex};
+        let want: u64 = args.get(2).and_then(|x| x.parse().ok()).unwrap_or(3);
+        let hits: Arc<Mutex<Vec<String>>> = Arc::new(Mutex::new(vec![]));
+        let done = Arc::new(AtomicBool::new(false));
+        let tried = Arc::new(AtomicU64::new(0));
+        let mut hs = vec![];
+        for t in 0..16u32 {
+            let (hits, done, tried) = (hits.clone(), done.clone(), tried.clone());
+            hs.push(std::thread::spawn(move || {
+                let h = gen::tcp::Host { profile: 0, ts_hz: 0, ts_base: 0, ttl: 64 };
+                let seg = gen::tcp::data(&h, pkt::Endpoint::v4(10, 0, 0, 1, 40000), pkt::Endpoint::v4(203, 0, 113, 5, 80), 1, 1, vec![], 0, 0, pkt::ACK);
+                let mut f = pkt::frame(&seg, pkt::Framing::Ethernet);
+                let mut x: u32 = t.wrapping_mul(0x1000_0000);
+                let mut n = 0u64;
+                // each thread owns 2^28 values of x per sweep; three sweeps with different server ports
+                while !done.load(Ordering::Relaxed) && n < (10u64 << 28) {
+                    let sport: u16 = [80u16, 8080, 443, 8000, 3128, 8443, 81, 8081, 8888, 5000][(n >> 28) as usize % 10];
+                    f[36] = (sport >> 8) as u8;
+                    f[37] = sport as u8;
+                    // source address 10.x.y.z, source port from the upper bits
+                    f[27] = (x >> 16) as u8;
+                    f[28] = (x >> 8) as u8;
+                    f[29] = x as u8;
+                    let port = 1024 + ((x >> 24) as u16) * 13;
+                    f[34] = (port >> 8) as u8;
+                    f[35] = port as u8;
+                    for name in ["http", "tls"] {
+                        let w = if name == "http" { Some(huginn_net_http::packet_hash::hash_flow(&f, 1usize << 32)) } else { huginn_net_tls::packet_hash::hash_flow(&f, 1usize << 32) };
+                        if let Some(w) = w {
+                            if w == 0 || w == 0xffff_ffff {
+                                hits.lock().unwrap().push(format!("{{\"pool\": \"{}\", \"low32\": {}, \"client\": \"10.{}.{}.{}:{}\", \"server\": \"203.0.113.5:{}\"}}", name, w, f[27], f[28], f[29], port, sport));
+                            }
+                        }
+                    }
+                    x = x.wrapping_add(1);
+                    n += 1;
+                    if n % (1 << 20) == 0 {
+                        tried.fetch_add(1 << 20, Ordering::Relaxed);
+                        if hits.lock().unwrap().len() as u64 >= want {
+                            done.store(true, Ordering::Relaxed);
+                        }
+                    }
+                }
+            }));
+        }
+        for h in hs {
+            let _ = h.join();
+        }
+        println!("[");
+        let v = hits.lock().unwrap();
+        for (i, l) in v.iter().enumerate() {
+            println!("  {}{}", l, if i + 1 < v.len() { "," } else { "" });
+        }
+        println!("]");
+        eprintln!("tried {} candidates", tried.load(Ordering::Relaxed));
+        return;
+    }
     if cmd == "dbvariants" {
         // diagnosis aid: which rewrites of the signature database does the loader accept?
         for v in 1..=sut::DB_VARIANTS {
@@ -174,6 +249,7 @@ fn main() {
     let mut out_dir = format!("{}/out/replays", runner::verif_root());
     let mut runs_override = None;
     let mut budget_s = std::env::var("VERIF_BUDGET_S").ok().and_then(|s| s.parse().ok());
+    let mut index: Option<u64> = None;
     let mut i = 3;
     while i < args.len() {
         let a = args[i].as_str();
@@ -207,6 +283,10 @@ fn main() {
                 budget_s = val.parse().ok();
                 i += 1;
             }
+            "--index" => {
+                index = val.parse().ok();
+                i += 1;
+            }
             _ => {
                 eprintln!("unknown argument {}", a);
                 std::process::exit(2);
@@ -216,6 +296,16 @@ fn main() {
     }
     let jobs = jobs.max(1);
     match cmd {
+        "emit" => {
+            // write the replay file of run INDEX of a batch without running it (used when a batch process died:
+            // the runs that were in flight are replayed one by one in processes of their own)
+            let id = args.get(2).cloned().unwrap_or_default();
+            let o = Opts { tier, seed, jobs, evidence, out_dir, runs_override, hashes_only: false, budget_s };
+            match dispatch_emit(&id, &o, index.unwrap_or(0)) {
+                Some(c) => std::process::exit(c),
+                None => std::process::exit(2),
+            }
+        }
         "list" => {
             macro_rules! show {
                 ($t:ty) => {
